@@ -23,6 +23,6 @@ def make_plan(ths, tier, rnd):
 
 
 def run(tier, replay):
-    return modelcheck.run(PROP, tier, replay, make_plan, panic_props=("C06",),
+    return modelcheck.run(PROP, tier, replay, make_plan, design=[("poset", {"maxels": 2, "maxid": 2, "maxasserts": 2, "liveness": True, "thorough_only": {"maxels": 3, "maxid": 3, "maxasserts": 3}})], panic_props=("C06",),
                           explanation="`!`-free corpus theories only; a close that exceeds the driver's bound of 150 condition "
                                       "evaluations is reported as budget event")
